@@ -237,6 +237,40 @@ def x1_exempt(prog, flows, b, fl, wbb, callee, err_bb):
 # ---------------------------------------------------------------------------------------- R-C01-2
 
 
+def closure_short_circuits(prog, flows, cb):
+    """the closure is handed to an adaptor that stops pulling elements at the first failure: try_for_each / try_fold /
+    all / any / find.., or `map(..)` whose values are collected into a `Result<_, _>` (the Result shunt stops at the
+    first Err)"""
+    for (pp, s_) in flows.closure_sites(cb.path):
+        pb = prog.bodies[pp]
+        pf = flows.of(pp)
+        cls = pf.copies_of(s_.lhs.local)
+        for t in pb.calls():
+            if not t.callee or not any(a.place is not None and a.place.local in cls for a in t.args[1:]):
+                continue
+            nm = t.callee.short.split("::")[-1]
+            if nm in ("try_for_each", "try_fold", "all", "any", "find", "find_map", "position", "try_find"):
+                return True
+            if nm in ("map", "map_while", "scan"):
+                # follow the adaptor's value to its consumer
+                cur = {t.dest.local}
+                for _ in range(6):
+                    nxt = set(cur)
+                    for t2 in pb.calls():
+                        if t2.args and t2.args[0].place is not None and t2.args[0].place.local in pf.copies_of(next(iter(cur))) | cur:
+                            n2 = t2.callee.short.split("::")[-1] if t2.callee else ""
+                            if n2 in ("collect", "from_iter", "sum", "product", "try_collect") and t2.dest.ty.startswith("std::result::Result<"):
+                                return True
+                            nxt.add(t2.dest.local)
+                    for st in pb.stmts():
+                        if st.k == "assign" and st.rv.k == "use" and st.rv.ops[0].place is not None and st.rv.ops[0].place.local in cur and not st.lhs.proj:
+                            nxt.add(st.lhs.local)
+                    if nxt == cur:
+                        break
+                    cur = nxt
+    return False
+
+
 def in_input_order(ity):
     """the iterator type walks a Vec front to back, every element once: vec::IntoIter / slice::Iter, possibly under
     lazy one-to-one adaptors (Map, Enumerate, Cloned, Copied, Inspect) -- not Rev, Skip, StepBy, Filter, Chain, .."""
@@ -275,6 +309,15 @@ def rule2(ctx, prog, flows, effects):
                 ity = t.args[0].place.ty if t.args and t.args[0].place is not None else ""
                 ok = in_input_order(ity)
                 ctx.require(ok, "R-C01-2", "order|" + b.short, "%s iterates its input as vec::IntoIter (input order)" % sfx.split("::")[-1], "%s iterates %s: not the plain input order" % (sfx, ity), loc_str(t.span))
+        # (c0) a mutator call that survives inside a closure (handed to fold / map / for_each-with-and ..; the early-exit
+        # adaptors try_for_each and plain loops have been lowered into this body) has no `return` to leave the batch with
+        for cb_ in prog.closures_of(b.path):
+            if closure_short_circuits(prog, flows, cb_):
+                continue
+            for t_ in cb_.calls():
+                tp_ = t_.callee.target_path(prog) if t_.callee else None
+                if tp_ in mutators and prog.bodies[tp_].local_ty(0).startswith("std::result::Result<"):
+                    ctx.violation("R-C01-2", "errexit-closure|%s|%s" % (b.short, prog.bodies[tp_].short.split("::")[-1]), "%s calls %s inside a closure whose result is merely combined (fold / and / map): the batch cannot stop at the first Err, so edges after the failing one are applied as well" % (sfx, prog.bodies[tp_].short.split("::")[-1]), loc_str(t_.span))
         # (c) every Result-returning mutator call: Err leaves at once
         for t in mcalls:
             cb = prog.bodies[t.callee.target_path(prog)]
